@@ -43,7 +43,7 @@ M = [
  ("m51-address-change-ignored", "conn.go", "	for _, n := range config.Nodes {\n		r.addrs[n.ID] = n.Addr\n	}", "	for _, n := range config.Nodes {\n		if _, ok := r.addrs[n.ID]; !ok {\n			r.addrs[n.ID] = n.Addr\n		}\n	}", "C17"),
  ("m52-older-snapshot-replaces-newer", "snapshots.go", "	if s.meta.index > s.snaps.index {", "	if s.meta.index > 0 {", "C19"),
  ("m53-shared-label-temp-file", "snapshots.go", "	file := metaFile(s.snaps.dir, s.meta.index) + \".tmp\"", "	file := filepath.Join(s.snaps.dir, \"meta.tmp\")", "C15"),
- ("m54-no-log-reset-on-open", "storage.go", "	if s.log.LastIndex() < s.snaps.index {", "	if s.log.LastIndex() < s.snaps.index && false {", "C10"),
+ ("m54-no-log-reset-on-open", "storage.go", "	if stale {\n		if err = s.log.Reset(s.snaps.index); err != nil {", "	if stale && false {\n		if err = s.log.Reset(s.snaps.index); err != nil {", "C10"),
  ("m55-old-removal-shuts-down-again", "config.go", "		if r.shutdownOnRemove && wasMember && r.configs.Latest.Index != r.removedAtStart {", "		if r.shutdownOnRemove && wasMember {", "C17"),
  ("m56-segment-created-under-final-name", "log/util.go", "	temp := name + \".tmp\"", "	temp := name", "C14"),
  ("m57-only-short-log-is-reset-on-open", "storage.go", "		stale = term != s.snaps.term", "		stale = term != s.snaps.term && false", "C10"),
